@@ -177,25 +177,45 @@ _CLI = None
 
 def prop_cli(case, rec):
     global _CLI
+    from .. import cli
     if _CLI is None or not os.path.isdir(_CLI):
         _CLI = session.copy_cli(session.make_root('c17cli'))
     m, sc, n = case['model'], case['skip_case'], case['n']
+    ctx = case.get('context') or cli.DEFAULT
+    rule = ctx.get('rule', 'T')
     rsmodel.write_ruleset(os.path.join(_root(), 'Rules', 'T'), m)
-    rsmodel.write_ruleset(os.path.join(_CLI, 'Rules', 'T'), m)
+    rsmodel.write_ruleset(os.path.join(_CLI, 'Rules', rule), m)
     flags = ['--all_lower'] if sc else []
     U, _ = guard(case, run_prince, _root(), ['-r', 'T'] + flags)
-    env = dict(os.environ, PYTHONUTF8='1', LC_ALL='C.UTF-8', PYTHONDONTWRITEBYTECODE='1', PYTHONWARNINGS='ignore')
-    args = ['-r', 'T'] + flags + (['-s', str(n)] if n else [])
+    want = ''.join(w + '\n' for w in (U[:n] if n else U)).encode('utf-8')
+    lo = case.get('long_options')
+    args = [('--rule' if lo else '-r'), rule] + flags + ([('--size' if lo else '-s'), str(n)] if n else [])
+    # the list goes to stdout, to an absolute path, or to a RELATIVE path (which belongs to the directory the user is in)
+    out_mode = case.get('output', 'stdout')
+    cwd = cli.cwd_for(_CLI, ctx)
+    target = None
+    if out_mode != 'stdout':
+        name = 'words out.txt'
+        target = os.path.join(cwd, name)
+        for d in {cwd, _CLI}:
+            if os.path.exists(os.path.join(d, name)):
+                os.remove(os.path.join(d, name))
+        args += [('--output' if lo else '-o'), target if out_mode == 'absolute' else name]
     try:
-        p = subprocess.run([sys.executable, os.path.join(_CLI, 'prince_ling.py')] + args, stdin=subprocess.DEVNULL, capture_output=True,
-                           env=env, cwd=_CLI, timeout=120)
+        p = cli.run(_CLI, 'prince_ling.py', args, ctx)
     except subprocess.TimeoutExpired:
         rec.skip('cli_timeout_inconclusive')
         return
-    want = ''.join(w + '\n' for w in (U[:n] if n else U)).encode('utf-8')
-    rec.case({'args': args, 'words': len(U)}, len(U) >= 2, ['cli'], key=[m, sc, n, 'cli'])
-    if p.stdout != want:
-        raise Violation('cli_stdout', f'prince_ling.py {args}: stdout {p.stdout[:80]!r}.. differs from the expected {len(want)} bytes; rc={p.returncode} '
+    rec.case({'args': args, 'words': len(U), 'context': ctx}, len(U) >= 2, ['cli', 'cli_output_' + out_mode] + cli.label(ctx), key=[m, sc, n, 'cli', ctx, out_mode, lo])
+    if target is None:
+        got = p.stdout
+    else:
+        got = open(target, 'rb').read() if os.path.exists(target) else None
+        if p.stdout:
+            raise Violation('cli_stdout', f'prince_ling.py {args}: words on stdout although an output file was requested: {p.stdout[:60]!r}', case)
+    if got != want:
+        raise Violation('cli_stdout', f'prince_ling.py {args} (started in {ctx.get("cwd")}): {"stdout" if target is None else "file " + repr(target)} holds '
+                        f'{None if got is None else got[:80]!r}.. , expected {len(want)} bytes; rc={p.returncode} '
                         f'stderr tail {p.stderr.decode("utf-8", "replace")[-200:]}', case)
 
 
@@ -203,11 +223,15 @@ def prop_cli(case, rec):
 def cli_cases(draw):
     c = draw(cases())
     c['n'] = draw(st.sampled_from([None, 1, 2, 3, 5]))
+    from .. import cli
+    c['context'] = draw(cli.contexts())
+    c['output'] = draw(st.sampled_from(['stdout', 'relative', 'relative', 'absolute']))
+    c['long_options'] = draw(st.booleans())
     return c
 
 
 def run_cli(rec, seed, shard, nshards, tier):
-    n = {'quick': 3, 'thorough': 30}[tier]
+    n = {'quick': 5, 'thorough': 30}[tier]
     core.hyp_run(rec, prop_cli, cli_cases(), n, seed, shrink=False)
 
 
